@@ -233,7 +233,7 @@ FREE_CBS = ('S', 'COMMENT', 'unknownrule')
 
 
 def r09c(chk, rid='R09.c'):
-    chk.rule(rid, 'parse-time ordering levels, decided by evaluation: CSSStyleSheet._setCssText is evaluated on its syntax tree up to its call of _parse (rule classes, tokenizer and insertRule are model stubs); there every production callback of the dispatch table - resolved from the source, whatever it is called - is run for each level 0..3 and each kind of statement token: @charset is accepted at level 0 only, @import up to 1, @namespace and @variables up to 2, body rules always; an accepted rule sets the level to its rank, a rejected one and every comment, white space, unknown or misplaced margin at-rule leaves it where it is (at least 1); parsing starts at level 0')
+    chk.rule(rid, 'parse-time ordering levels, decided by evaluation: CSSStyleSheet._setCssText is evaluated on its syntax tree up to its call of _parse (rule classes, tokenizer and insertRule are model stubs); there every production callback of the dispatch table - resolved from the source, whatever it is called - is run for each level 0..3 and each kind of statement token: @charset is accepted at level 0 only, @import up to 1, @namespace and @variables up to 2, body rules always; an accepted rule sets the level to its rank, a rejected one and every comment, white space, unknown or misplaced margin at-rule leaves it where it is (at least 1); a refused @namespace leaves an existing binding of its prefix alone; parsing starts at level 0')
     chk.assume('R09.c: rule classes, the tokenizer and insertRule are stubs; every rule parses as well-formed (an ill-formed statement is consumed and dropped by the same callbacks: R04.b)')
     from sa.absint import Evaluator, Obj, Raised, Record
 
@@ -311,6 +311,24 @@ def r09c(chk, rid='R09.c'):
                 state['wellformed'] = True
                 if [r.kind for r in inserted if r.kind != 'CSSComment']:
                     problems.append(f'{ttype} {val} at level {level}: a rule that failed to parse is inserted')
+        # a prefix that is already declared: re-declared in place while @namespace is allowed, left alone when the statement is refused
+        cb = table.get('NAMESPACE_SYM', default)
+        for level in (0, 1, 2, 3):
+            touched = []
+            existing = Obj(kind='CSSNamespaceRule', prefix='p', namespaceURI='old', _replaceNamespaceURI=lambda u: touched.append(u))
+            me.namespaces = {'p': 'old'}
+            me._namespaces = me.namespaces
+            me.cssRules = Record(rulesOfType=lambda t: [existing])
+            me._cssRules = [existing]
+            del inserted[:]
+            new = cb(level, seq, ('NAMESPACE_SYM', '@namespace', 1, 1), tokenizer)
+            bound = me._namespaces.get('p')
+            if level <= 2:
+                if bound != 'u' or not (touched == ['u'] or inserted):
+                    problems.append(f'@namespace for a declared prefix at level {level}: the prefix is bound to {bound!r}, replaced {touched}, inserted {len(inserted)}')
+            elif touched or inserted or bound != 'old' or new != level:
+                problems.append(f'a misplaced @namespace for a declared prefix (level {level}) re-binds it: prefix bound to {bound!r}, existing rule changed to {touched}, inserted {len(inserted)}, level {new} - the refused statement changes the meaning of the selectors in front of it')
+            me.namespaces, me._namespaces, me._cssRules = {}, {}, []
         return True, 3
 
     me = Obj(_checkReadonly=lambda: None, _splitNamespacesOff=lambda t: (t, {}), _tokenize2=lambda t: 'TOKENIZER', _cssRules=[], _namespaces={}, namespaces={},
@@ -629,6 +647,9 @@ def _insert_case(args):
     for r in rules:
         r._parentStyleSheet = me
     me.namespaces = {r.prefix: r.namespaceURI for r in rules if r.kind == 'namespace'}
+    from sa.absint import Loose
+
+    me._namespaces = Loose()  # change notifications to the namespace view are no-ops here; a read is an analysis error
     new = mk(newkind, 99)
     intr = {'self._cleanNamespaces': lambda: None, 'self._updateVariables': lambda: None, 'self._log.error': lambda *a, **k: errors.append(k.get('error', 'error')),
             'cssutils.css.CSSRuleList': CSSRuleListM, 'xml': Record(dom=Record(HierarchyRequestErr='HierarchyRequestErr', IndexSizeErr='IndexSizeErr'))}
